@@ -200,6 +200,8 @@ def _gen_fitness_case(rng, multi, weights, same_times):
             wts[-1] = wts[0] * 2
     elif wkind == "file":
         wts = [[rng.choice(wpool) for _ in range(n)] for _ in range(npairs)]
+        if rng.random() < 0.4:
+            wts[rng.randrange(npairs)][rng.randrange(n)] = None  # a NaN in a weight file: that pixel carries no weight
     else:
         wts = None
     free = rng.randrange(0, 2) if func == "chi2" else 0
@@ -283,7 +285,7 @@ def _write_targets(case, tmp):
     if case.get("weights_kind") == "file":
         wpaths = []
         for i, flat in enumerate(case["weights"]):
-            np.save(f"{tmp}/weight{i}.npy", np.array(flat, dtype=float).reshape(case["target_shape"]))
+            np.save(f"{tmp}/weight{i}.npy", np.array([np.nan if v is None else v for v in flat], dtype=float).reshape(case["target_shape"]))
             wpaths.append(f"{tmp}/weight{i}.npy")
     return paths, wpaths
 
@@ -688,11 +690,12 @@ def weights3(case, i):
 def fom(func, free, sim, tgt, w):
     """the three figures of merit on flat lists (None = NaN), exact"""
     diff = [None if (t is None or s is None) else Fraction(t) - Fraction(s) for s, t in zip(sim, tgt)]
+    # a NaN weight makes its term NaN, which `nansum` skips (the degrees of freedom of chi2 count finite residuals)
     if func == "abs":
-        return sum(abs(d * Fraction(k)) for d, k in zip(diff, w) if d is not None)
+        return sum(abs(d * Fraction(k)) for d, k in zip(diff, w) if d is not None and k is not None)
     if func == "sq":
-        return sum(d * d * Fraction(k) for d, k in zip(diff, w) if d is not None)
-    num = sum((d / Fraction(k)) ** 2 for d, k in zip(diff, w) if d is not None)
+        return sum(d * d * Fraction(k) for d, k in zip(diff, w) if d is not None and k is not None)
+    num = sum((d / Fraction(k)) ** 2 for d, k in zip(diff, w) if d is not None and k is not None)
     dof = sum(1 for d in diff if d is not None) - free
     return num / dof if dof else None
 
@@ -817,6 +820,17 @@ def body(ck: common.Check):
                    "target_range": [0, 3, 0, 5], "result_range": [2, 5, 0, 5], "relation": "shifted"})
     fcases = [gen_fitness_case(rng) for _ in range(54 if quick else 950)]
     fcases += [gen_fitness_case(rng, multi=True, weights=w) for w in ("list", "file", "list")]
+    # directed: every figure of merit with a NaN in a weight file (the pixel carries no weight: its term is skipped)
+    for func in ("chi2", "chi2", "abs", "sq"):
+        while True:
+            c = gen_fitness_case(rng, multi=False, weights="file")
+            if c["func"] != func:
+                continue
+            ty, _, tx, _ = c["target_range"]
+            c["weights"][0][ty * c["target_shape"][-1] + tx] = None  # inside the fitted region
+            if all(expected_fitness(c, x) is not None for x in c["xs"]):
+                break
+        fcases.append(c)
     runs = [gen_run_case(rng, i) for i in range(6 if quick else 36)]
     runs += [gen_policy_run_case(rng, i) for i in range(4 if quick else 24)]
     runs += [gen_stochastic_run_case(rng, i) for i in range(2 if quick else 12)]
@@ -853,6 +867,7 @@ def body(ck: common.Check):
         ck.case(case, nontrivial=True, stream="fitness")
         ck.count("func=" + case["func"])
         ck.count("weights=" + case["weights_kind"])
+        ck.count("nan_in_weight_file", int(case["weights_kind"] == "file" and any(v is None for w in case["weights"] for v in w)))
         ck.count("pairs=%d" % len(case["targets"]))
         ck.count("multi_readout", int(case["multi"]))
         ck.count("shifted_ranges", int(case["target_range"] != case["result_range"][-4:]))
